@@ -8,7 +8,7 @@ an intermediate stop, and server_utilisation after any intermediate stop, are at
 import sys, random, math
 import ciw
 from .. import gen, runner
-from .common import CapSim, guarded, fingerprint, first_diff, Summary
+from .common import reaches_open_finding, CapSim, guarded, fingerprint, first_diff, Summary
 
 PROFILE = {'p_lattice': 0.0, 'p_exact': 0.0, 'horizons': [10.0, 20.0, 30.0], 'p_renege': 0.3, 'p_prio': 0.5,
            'p_kinds': (0.6, 0.1, 0.2, 0.1)}
@@ -37,6 +37,10 @@ def worker(job, extra):
     r = random.Random(seed)
     cuts = job.get('cuts') or sorted(round(r.uniform(0.0, T), 6) for _ in range(r.randint(1, 5)))
     res = {'job': dict(job, cuts=cuts), 'seed': seed, 'features': sorted(gen.features(spec)), 'sig': repr(gen.topo_signature(spec)), 'viol': [], 'known': []}
+
+    k_ = reaches_open_finding(spec)
+    if k_:
+        res['status'] = 'skipped_reaches_' + k_; return res
 
     def unsplit():
         N, skw = gen.build(spec); ciw.seed(seed)
